@@ -315,6 +315,7 @@ func (bucket *Bucket) initializeSchema(bucketName string) (err error) {
 // If the bucket has been closed, it returns a special `closedDB` value that will return
 // ErrBucketClosed from any call.
 func (bucket *Bucket) db() queryable {
+	verifLock(bucket.mutex, "db")
 	bucket.mutex.Lock()
 	defer bucket.mutex.Unlock()
 	return bucket._db()
@@ -334,6 +335,7 @@ func (bucket *Bucket) inTransaction(fn func(txn *sql.Tx) error) error {
 	// However, these errors can still occur (somehow?), so we retry if we get one.
 	// --Update, 25 July 2023: After adding "_txlock=immediate" to the DB options when opening,
 	// the busy/locked errors have gone away. But there's no harm leaving the retry code in place.
+	verifLock(bucket.mutex, "txn.begin")
 	bucket.mutex.Lock()
 	defer bucket.mutex.Unlock()
 
@@ -359,6 +361,7 @@ func (bucket *Bucket) inTransaction(fn func(txn *sql.Tx) error) error {
 		if err == nil {
 			err = txn.Commit()
 		}
+		verifNote("txn.end", bucket.name, ifelse[uint64](err == nil, 1, 0))
 
 		if err != nil {
 			_ = txn.Rollback()
